@@ -106,6 +106,17 @@ def leaf_cl(out):
         return None
     wrap_test = Tr(atom2).expr(kids(ifs[0])[0])
     then = kids(ifs[0])[1]
+    # the same function written with an early return: `if(NOT-WRAPPED) return result;  <wrap branch>  return result;`
+    tb = then
+    while tb.get('kind') == 'CompoundStmt' and len(kids(tb)) == 1:
+        tb = kids(tb)[0]
+    if tb.get('kind') == 'ReturnStmt' and len(kids(ifs[0])) == 2 and kids(tb) and member_name(strip(kids(tb)[0])) == drawn:
+        stmts_all = kids(body)
+        rest = stmts_all[stmts_all.index(ifs[0]) + 1:]
+        if not rest or rest[-1].get('kind') != 'ReturnStmt':
+            raise Untranslatable('getNextCounter: early return without a final return')
+        then = {'kind': 'CompoundStmt', 'inner': rest[:-1]}
+        wrap_test = wrap_test[6:-1] if wrap_test.startswith('(negb ') and wrap_test.endswith(')') else '(negb %s)' % wrap_test
     assigns = [x for x in walk(then) if x.get('kind') == 'BinaryOperator' and x.get('opcode') == '='
                and member_name(kids(x)[0]) == 'counter']
     if len(assigns) != 1:
